@@ -57,6 +57,8 @@ void run_cpp(const Scenario& s, Observed& ob, bool query_leftover) {
                 if (s.extraOut == 1) call.withOutputParameter("x", &ob.xb[c]);
                 if (s.outParam) call.withOutputParameter("o", &ob.outb[c]);
                 if (s.extraOut == 2) call.withOutputParameter("x", &ob.xb[c]);
+                if (s.extraOut == 3) call.withOutputParameter("x", &ob.xb[c]);
+                if (s.extraOut == 4) call.withOutputParameter("p", &ob.xb[c]);
                 if (s.readReturn) ob.ret[c] = call.returnIntValueOrDefault(-1);
                 ob.reached = (int)c + 1;
             }
@@ -149,7 +151,7 @@ void check(const Scenario& s, const Alphabet& A) {
     if (!unamb) {
         // outside the narrow class the step-by-step reference (diagnosis, abort point, values) is not trusted; where no
         // call can completely match two different expectations the property's multiset statement still decides the verdict
-        if (!s.scoped && wide_unambiguous(s, A)) {
+        if (!s.scoped && s.extraOut < 3 && wide_unambiguous(s, A)) {
             bool want_pass = multiset_verdict_pass(s);
             vf::count("wide_class");
             if (want_pass != (ob.failures == 0))
@@ -202,7 +204,7 @@ void check(const Scenario& s, const Alphabet& A) {
     }
 }
 
-struct Sweep { const char* name; bool ig, obj; int maxE, maxA; int flagbits; /* how many of strict,ioc,ret,out vary */ int nfn; int scoped = 0; bool xout = false; bool plugin = false; };
+struct Sweep { const char* name; bool ig, obj; int maxE, maxA; int flagbits; /* how many of strict,ioc,ret,out vary */ int nfn; int scoped = 0; bool xout = false; bool plugin = false; bool outname = false; };
 
 void run_sweep(const Sweep& sw) {
     Alphabet A = make_alphabet(sw.ig, sw.obj, sw.nfn);
@@ -220,6 +222,7 @@ void run_sweep(const Sweep& sw) {
         decode_tuple(ie, (long)A.eo.size(), te); decode_tuple(ia, (long)A.ao.size(), ta);
         Scenario s;
         s.strict = flags & 1; s.ignoreOtherCalls = flags & 2; s.readReturn = flags & 4; s.outParam = flags & 8;
+        if (sw.outname) { s.extraOut = 3 + (flags & 1); s.readReturn = flags & 2; s.outParam = false; s.strict = false; s.ignoreOtherCalls = false; }
         if (sw.xout) { s.extraOut = 1 + (flags & 1); s.readReturn = flags & 2; s.outParam = true; s.strict = false; s.ignoreOtherCalls = false; }
         if (sw.scoped) { s.scoped = sw.scoped; s.readReturn = flags & 1; s.outParam = flags & 2; s.strict = false; s.ignoreOtherCalls = false; }
         for (int i : te) s.exps.push_back(A.eo[i]);
@@ -244,9 +247,9 @@ int main(int argc, char** argv) {
         if (!T) sweeps = { {"basic22", false, false, 2, 2, 2, 2}, {"ignore12", true, false, 1, 2, 4, 2}, {"object12", false, true, 1, 2, 4, 1}, {"outignore12", true, false, 1, 2, 2, 2, 0, true} };
         else    sweeps = { {"basic22", false, false, 2, 2, 4, 2}, {"ignore22", true, false, 2, 2, 2, 2}, {"object22", false, true, 2, 2, 2, 1}, {"scope22", false, false, 2, 2, 2, 2, 1}, {"twoscopes22", false, false, 2, 2, 2, 2, 2}, {"outignore22", true, false, 2, 2, 2, 2, 0, true} };
     } else if (!T) {
-        sweeps = { {"basic22", false, false, 2, 2, 4, 2}, {"basic13", false, false, 1, 3, 3, 2}, {"ignore22", true, false, 2, 2, 2, 2}, {"object22", false, true, 2, 2, 2, 1}, {"scope22", false, false, 2, 2, 2, 2, 1}, {"scope13", false, false, 1, 3, 2, 2, 1}, {"twoscopes22", false, false, 2, 2, 2, 2, 2}, {"outignore22", true, false, 2, 2, 2, 2, 0, true}, {"plugin22", false, false, 2, 2, 2, 2, 0, false, true} };
+        sweeps = { {"basic22", false, false, 2, 2, 4, 2}, {"basic13", false, false, 1, 3, 3, 2}, {"ignore22", true, false, 2, 2, 2, 2}, {"object22", false, true, 2, 2, 2, 1}, {"scope22", false, false, 2, 2, 2, 2, 1}, {"scope13", false, false, 1, 3, 2, 2, 1}, {"twoscopes22", false, false, 2, 2, 2, 2, 2}, {"outignore22", true, false, 2, 2, 2, 2, 0, true}, {"plugin22", false, false, 2, 2, 2, 2, 0, false, true}, {"outname22", true, false, 2, 2, 2, 2, 0, false, false, true} };
     } else {
-        sweeps = { {"basic23", false, false, 2, 3, 4, 2}, {"ignore23", true, false, 2, 3, 2, 2}, {"object22", false, true, 2, 2, 4, 1}, {"object23", false, true, 2, 3, 2, 1}, {"basic32", false, false, 3, 2, 2, 2}, {"scope23", false, false, 2, 3, 2, 2, 1}, {"twoscopes23", false, false, 2, 3, 2, 2, 2}, {"outignore23", true, false, 2, 3, 2, 2, 0, true}, {"plugin23", false, false, 2, 3, 2, 2, 0, false, true} };
+        sweeps = { {"basic23", false, false, 2, 3, 4, 2}, {"ignore23", true, false, 2, 3, 2, 2}, {"object22", false, true, 2, 2, 4, 1}, {"object23", false, true, 2, 3, 2, 1}, {"basic32", false, false, 3, 2, 2, 2}, {"scope23", false, false, 2, 3, 2, 2, 1}, {"twoscopes23", false, false, 2, 3, 2, 2, 2}, {"outignore23", true, false, 2, 3, 2, 2, 0, true}, {"plugin23", false, false, 2, 3, 2, 2, 0, false, true}, {"outname23", true, false, 2, 3, 2, 2, 0, false, false, true} };
     }
     for (auto& sw : sweeps) run_sweep(sw);
     return vf::finish();
